@@ -17,8 +17,9 @@
      stmt    spellings of thr / sum2 / small (radius SK) as DURATIONVAL literals inside statements
 
    Model-checked in the same run (INVARIANTS): the threshold table is exact (ASSUME in DurBig),
-   and for every emitted parse case the BigInt design twin keeps to the two named deviations
-   (DesignOnlyKnown) -- the TLC-side complement of Apalache's `Safe` on the boundary sweep.   *)
+   and for every emitted parse case the BigInt design twin (checked accumulation) accepts exactly
+   the totals that fit, with the exact value (DesignExact) -- the TLC-side complement of Apalache's
+   `Correct` on the boundary sweep.                                                          *)
 EXTENDS DurBig, Json, CSV, IOUtils
 
 \* token records of spec/common/Tok.tla (instantiated: Tok!Int would clash with Integers!Int)
@@ -124,12 +125,13 @@ ParseCase(fam, neg, comps) == [k |-> "parse", fam |-> fam, neg |-> neg, comps |-
 StmtCase(c, fam, comps) == [k |-> "stmt", ctx |-> c, fam |-> fam, sgn |-> Signed1(c), comps |-> comps, toks |-> Ctx[c]]
 FmtCase(fam, x) == [k |-> "format", fam |-> fam, d |-> ToDec(x)]
 
-\* ---- M on the sweep: the BigInt design twin fails only in the two named shapes --------------
-DesignOnlyKnownFor(neg, comps) ==
-  LET ex == ExactSum(neg, comps) IN
-  IF Fits64(ex) THEN DesignAccepts(neg, comps) \/ NumeralTooBig(comps)
-  ELSE IF ~DesignAccepts(neg, comps) THEN TRUE
-  ELSE neg \/ ~DesignValue(neg, comps).neg        \* accepted and unfit: Dev_WrapNegativeUnchecked or Dev_WrapToNonNegative
+\* ---- M on the sweep: the BigInt design twin satisfies the property on every generated spelling -----
+\* accepted exactly when the exact total fits, and then with the exact total
+DesignExactFor(neg, comps) ==
+  LET ex == ExactSum(neg, comps)
+      dz == Design(neg, comps) IN
+  /\ dz.ok = Fits64(ex)
+  /\ dz.ok => Eq(Signed(neg, dz.mag), ex)
 
 \* ---- the machine: root -> cell -> leaf (the step into a leaf writes the case) ---------------
 Init == st = [ph |-> "root"]
@@ -224,7 +226,7 @@ Emit == /\ st.ph = "cell"
 Next == Pick \/ Emit
 Spec == Init /\ [][Next]_vars
 
-\* M (TLC, on every generated spelling): the design's failures have the named shapes only
-DesignOnlyKnown == (st.ph = "leaf" /\ "comps" \in DOMAIN st.c /\ "neg" \in DOMAIN st.c)
-                      => DesignOnlyKnownFor(st.c.neg, st.c.comps)
+\* M (TLC, on every generated spelling): the design twin is exact or rejects, and rejects only unfit totals
+DesignExact == (st.ph = "leaf" /\ "comps" \in DOMAIN st.c /\ "neg" \in DOMAIN st.c)
+                  => DesignExactFor(st.c.neg, st.c.comps)
 =============================================================================
